@@ -15,6 +15,7 @@ from engine.hw import HW
 from spec.seq import N, NW, bit, lt, le, nmod
 
 PROPERTY = "C39"
+HISTORY_LEMMAS = ['served_within']  # lemmas/History.lean: one-cycle contracts => history-level statement (Lean 4)
 LEVEL = "proof"
 ASSUMPTIONS = [
     "count swept as listed; unbounded in request histories (induction over wf plus the wait-counter ranking invariant)",
